@@ -282,6 +282,18 @@ func C08(c *ev.Ctx) {
 			cases = append(cases, cs)
 		}
 	}
+	// systematic repetition of ordinary imports across the two files of a package (collection order x,y,x etc.)
+	for _, pat := range [][2][]string{{{"u2", "u3"}, {"u2"}}, {{"u3", "u2"}, {"u3"}}, {{"u2", "u3"}, {"u3", "u2"}}, {{"u3", "u2"}, {"u2", "u3"}}, {{"u2"}, {"u2"}}, {{"u2", "sync", "u3"}, {"u2", "fmt"}}} {
+		for di := range dirs {
+			cs := c08Case{}
+			cs.users = []c08User{
+				{name: "u1", dir: dirs[di][0], users: []string{"u2", "u3"}, order: pat[0], fileB: pat[1]},
+				{name: "u2", dir: dirs[di][1]},
+				{name: "u3", dir: dirs[di][2]},
+			}
+			cases = append(cases, cs)
+		}
+	}
 	// ---- expected outcomes from the specification ----
 	var sb strings.Builder
 	sb.WriteString("---- MODULE FfiRun ----\nEXTENDS Ffi\nGenCases == <<\n")
